@@ -15,6 +15,7 @@ import (
 func init() { register("C03", "other", checkC03) }
 
 func checkC03(p *Program, r *Report) {
+	checkCViewStart(p, r)
 	r.Rule("R02.1c", "sibling agreement on aliasing: a fast path that writes through x.Unroll() must not be reachable with a C-backed x, whose Unroll always copies")
 	r.Rule("R03.1", "raw memory: unsafe.Pointer conversions occur only in the C-array constructors (New<T>CArray, make<T>CArrayForTest) and the cgo entry point; *[1<<30]T stores are addressed only through Index(loc) (R01.3 on the C types)")
 	r.Rule("R03.2", "call protocol of the entry points: ApplyParameters dominates InitialiseStates and Run; the FindDimensions→InitialiseDimensions handshake precedes ApplyParameters; the states given to Run are InitialiseStates' result exactly on the initStates edge and the caller's buffer otherwise; results are copied back to the caller's buffer after Run under initStates")
